@@ -450,6 +450,7 @@ def execute(spec, world):
             C["queries_ok"] += 1
         else:
             C["queries_raised"] += 1
+            C["fault.query_refused." + type(exc).__name__] += 1
             res["sets"]["raised"].add("%s:%s:%s" % (cls, qname, type(exc).__name__))
 
         # 2. caller arrays bit-for-bit unchanged
